@@ -1,5 +1,5 @@
 (* Properties_C08.v — obligations of property C08 (RadioText A/B protocol). *)
-Require Import ObsRun Lemmas_TextProps Lemmas_CbRt.
+Require Import ObsRun Lemmas_TextProps Lemmas_CbRt Lemmas_ObsEv.
 Local Open Scope Z_scope.
 
 (* the register "flag last seen" of a reachable state is the history function h_last_rt: the A/B
@@ -68,5 +68,15 @@ Theorem C08_rt_callback : forall conv lut g s, Inv conv s -> wf_group g -> b_gro
        then [mkev FRT (cb s FRT) (ud s) (AFlag f) (SmText (tsnap_of (rt_of f s')))] else [].
 Proof. exact rt_callbacks. Qed.
 Print Assumptions C08_rt_callback.
+(* THE OBSERVER (all clauses of the A/B protocol in one boolean function, as evaluated on the
+   library): other buffer untouched, RT callbacks carry the group's flag, at most one; an ignored
+   group changes nothing and notifies nothing; a switch empties a non-empty buffer and notifies;
+   otherwise only addressed cells change and a due change is not dropped; non-type-2 calls leave
+   both buffers alone and make no RT callback *)
+Theorem C08_observer : forall conv lut h s o ret, reach conv lut h s -> wf_op o ->
+  obs_C08 conv (o :: h) (snap_of s) (snap_of (fst (step conv lut s o))) (snd (step conv lut s o)) ret = true.
+Proof. exact obs_C08_holds. Qed.
+Print Assumptions C08_observer.
+
 Example C08_scenario : check_run_u (observer_u 8) scenario = true.
 Proof. vm_compute. reflexivity. Qed.
